@@ -543,10 +543,13 @@ void mframe_schedule(void)
 	/* Try to enable/disable task to meet target bitmap */
 	fn_diff = l1s.mframe_sched.safe_fn - l1s.current_time.fn;
 	if ((fn_diff <= 0) || (fn_diff >= (GSM_MAX_FN>>1)) ||
-	    (l1s.mframe_sched.safe_fn >= GSM_MAX_FN))
+	    (l1s.mframe_sched.safe_fn >= GSM_MAX_FN)) {
 		/* If nothing is in the way, enable new tasks */
 		l1s.mframe_sched.tasks = l1s.mframe_sched.tasks_tgt;
-	else
+		/* the safe point has been reached: forget it, so that it cannot
+		 * be mistaken for a future one half a hyperframe later */
+		l1s.mframe_sched.safe_fn = -1UL;
+	} else
 		/* Else, Disable only */
 		l1s.mframe_sched.tasks &= l1s.mframe_sched.tasks_tgt;
 
